@@ -366,7 +366,7 @@ fn run_case(spec: &Spec, tape: &mut Tape, key_canon: u64, key_var: u64) -> Resul
     }
     if !same_bytes(&spec, &a.bytes, &b.bytes, tail) {
         let i = a.bytes.iter().zip(b.bytes.iter()).position(|(x, y)| x != y).unwrap_or(a.bytes.len().min(b.bytes.len()));
-        run.violation = Some((format!("bytes_differ@{kind}"), format!("first difference at byte {i}: canonical {} vs history-built {}", hex(&a.bytes), hex(&b.bytes))));
+        run.violation = Some((format!("bytes_differ@{kind}"), format!("first difference at byte {i} of {} / {}: canonical ..{} vs history-built ..{}", a.bytes.len(), b.bytes.len(), hex(&a.bytes[i.saturating_sub(8).min(a.bytes.len())..(i + 24).min(a.bytes.len())]), hex(&b.bytes[i.saturating_sub(8).min(b.bytes.len())..(i + 24).min(b.bytes.len())]))));
         return Ok(run);
     }
     // the unchecked writer with a longer buffer: the same builder reached another way, or the
